@@ -110,7 +110,24 @@ func c04Value(i int, shape int) []byte {
 	return out
 }
 
-func c04FormatEdges() []c04Edge { return nil }
+// format edges: a value wider than the offset width the declared file size implies (unsupported value size): the
+// build must end in an error or store the value exactly
+func c04FormatEdges() []c04Edge {
+	var edges []c04Edge
+	for _, shape := range []int{1, 3, 4} { // file sizes 255, 2^24-1, 2^32-1: widths 1, 3, 4
+		shape := shape
+		w := intWidth(c04EffFileSize(shape))
+		for _, v := range []uint64{1 << (8 * uint(w)), 1<<(8*uint(w)) + 5, 1<<63 + 1} {
+			v := v
+			val := make([]byte, 8)
+			binary.LittleEndian.PutUint64(val, v)
+			group := fmt.Sprintf("value-wider-than-offset-width=%d", w)
+			edges = append(edges, c04Edge{Name: fmt.Sprintf("%s,value=%#x", group, v), Group: group, Shape: shape, Declared: 2,
+				KVs: func() []c04KV { return []c04KV{{c04SeqKey(1), c04Value(1, shape)}, {c04SeqKey(2), val}} }})
+		}
+	}
+	return edges
+}
 
 var _ = bytes.Equal
 
